@@ -1002,6 +1002,10 @@ def run(model, R):
             check_cell_sorts(C)
         except Unrecognised as e:
             R.unknown('TEMPLATE', func, e.node if e.node is not None else func.node, name, e.what)
+    from .common import flag_clobber
+    for nm in ('union_update', 'intersection_update'):
+        if nm in cls.methods:
+            flag_clobber(R, cls.methods[nm], ['ignore_conflicts'])
     R.guard('GUARD', None, 'Triple.__getitem__', t_getitem, model, R)
     R.guard('UNIQUE-INVARIANT', None, 'tools.Unique', unique_rules, model, R)
     R.guard('WHO-MAY-WRITE', None, 'package', who_may_write, model, R)
